@@ -42,7 +42,7 @@ impl CostFunction<Sym> for Weighted {
             Sym::H(..) => 5,
             Sym::T3(..) => 4,
             Sym::U(..) => 1,
-            Sym::B(..) => 2,
+            Sym::B(..) => 20, // heavy: a wide b-node over cheap leaves is ready early but costs more than a deeper alternative
             Sym::Lam(..) => 7,
             _ => 1,
         };
